@@ -4,6 +4,7 @@
 mod cal;
 mod core;
 mod f64x;
+mod pools;
 mod props;
 mod spell;
 mod tok;
